@@ -37,6 +37,8 @@ def _http_script(p):
     sc = []
     if p["read"] == "eager":
         sc.append(["recv_until_end"])
+    elif p["read"] == "one":
+        sc.append(["recv"])  # takes one message and answers in the same step
     r = p["respond"]
     if r == "now":
         sc += [["send", start], ["send", body]]
@@ -107,6 +109,9 @@ def gen(rng, tier):
                     # room when the application - which may never read them - ends its response, fails, or the connection goes
                     config["max_app_queue_size"] = q = rng.choice([2, 10])
                     nchunks = q + rng.choice([-2, -1, 0, 1, 2, 5])
+                    if rng.random() < 0.4:
+                        p["read"] = "one"
+                        by_tag[str(tag)] = _http_script(p)
                     reqs.append(b"POST /t%d HTTP/1.1\r\nHost: h\r\ntransfer-encoding: chunked\r\n\r\n" % tag +
                                 b"".join(b"2\r\nc%d\r\n" % (j % 10) for j in range(nchunks)) + b"0\r\n\r\n")
                     continue
